@@ -1,4 +1,5 @@
 pub mod alpha;
 pub mod bdd;
+pub mod cube;
 pub mod group;
 pub mod tt;
